@@ -115,13 +115,23 @@ pub fn spec_from_json(v: &J) -> Option<LineSpec> {
 enum Item {
     Row(LineSpec),
     Noise(Vec<u8>),
+    /// not valid UTF-8: part of the follow-mode stream only
+    Binary(Vec<u8>),
 }
 
 fn items_from_json(case: &J, key: &str) -> Option<Vec<Item>> {
     let mut out = Vec::new();
     for it in jarr(case, key) {
         if let Some(n) = it.get("noise").and_then(|x| x.as_str()) {
-            out.push(Item::Noise(dec(n)));
+            let bytes = dec(n);
+            if it.get("binary").and_then(|x| x.as_bool()).unwrap_or(false) {
+                if bytes.contains(&b'\n') || std::str::from_utf8(&bytes).is_ok() {
+                    return None;
+                }
+                out.push(Item::Binary(bytes));
+            } else {
+                out.push(Item::Noise(bytes));
+            }
         } else {
             out.push(Item::Row(spec_from_json(it)?));
         }
@@ -218,6 +228,13 @@ impl Property for C06 {
                 items.insert(pos, json!({"noise": enc(&noise)}));
             }
         }
+        // bytes that are not UTF-8 at all (Latin-1 text, binary garbage): in follow mode such a line is decoded
+        // lossily and matches nothing; in batch mode it is an error by design, so it is used for the follow twins only
+        if sqlgen::garbage_is_noise(&cfg) && rng.chance(1, 5) {
+            let pos = rng.below(items.len() + 1);
+            let garbage: &[u8] = *rng.pick(&[&b"caf\xe9 au lait"[..], b"\xff\xfe\x00\x01", b"\xc3", b"\x80\x80\x80 zzz"]);
+            items.insert(pos, json!({"noise": enc(garbage), "binary": true}));
+        }
         let split: Vec<usize> = if rng.chance(1, 3) { vec![rng.below(items.len() + 1)] } else { Vec::new() };
         let join = query.join.is_some();
         let mut jitems: Vec<J> = Vec::new();
@@ -298,8 +315,17 @@ impl Property for C06 {
         let mut noisy: Vec<Vec<u8>> = Vec::new();
         let mut is_noise: Vec<bool> = Vec::new();
         let mut expected_rows: Vec<Option<Vec<sqlgen::Cell>>> = Vec::new();
+        // (position in `noisy` before which the binary line goes, bytes)
+        let mut binary: Vec<(usize, Vec<u8>)> = Vec::new();
         for it in &items {
             match it {
+                Item::Binary(bytes) => {
+                    if !sqlgen::garbage_is_noise(&cfg) {
+                        out.invalid = Some("garbage is a row under this table configuration".to_owned());
+                        return out;
+                    }
+                    binary.push((noisy.len(), bytes.clone()));
+                }
                 Item::Row(spec) => {
                     noisy.push(sqlgen::render_line(&cfg, spec).into_bytes());
                     is_noise.push(false);
@@ -317,6 +343,10 @@ impl Property for C06 {
             }
         }
 
+        if noisy.is_empty() {
+            out.invalid = Some("no decodable line".to_owned());
+            return out;
+        }
         // --- the admission rule on the generated family: SELECT * line by line
         let mut aspec = WorldSpec::new(&defs, "SELECT * FROM t", Mode::Engine);
         aspec.engine_lines = noisy.iter().map(|l| String::from_utf8(l.clone()).unwrap()).collect();
@@ -450,7 +480,19 @@ impl Property for C06 {
         // --- follow mode twins
         if jbool(case, "follow") && !join {
             let mk = |keep_all: bool, scripted: bool| -> WorldSpec {
-                let ls: Vec<Vec<u8>> = (0..noisy.len()).filter(|i| keep_all || admitted[*i]).map(|i| noisy[i].clone()).collect();
+                let mut ls: Vec<Vec<u8>> = Vec::new();
+                for i in 0..=noisy.len() {
+                    if keep_all {
+                        for (pos, bytes) in &binary {
+                            if *pos == i {
+                                ls.push(bytes.clone());
+                            }
+                        }
+                    }
+                    if i < noisy.len() && (keep_all || admitted[i]) {
+                        ls.push(noisy[i].clone());
+                    }
+                }
                 let content = gen::join_lines(&ls, true);
                 let mut f = WorldSpec::new(&defs, &stmt, Mode::FollowExec { head: true });
                 f.files.push((FOLLOW_PATH.to_owned(), Vec::new()));
@@ -494,6 +536,7 @@ impl Property for C06 {
                     out.nontrivial.push(fnv_mix(h, 77));
                 }
                 out.probe("follow_twins", 1);
+                out.probe("follow_noise_not_utf8", (!binary.is_empty()) as u64);
             }
         }
         out
